@@ -160,8 +160,67 @@ class CStr:
     def rstrip(self, chars=None):
         return self._strip(chars, False, True)
 
+    def removeprefix(self, p):
+        p = CStr.lit(p) if isinstance(p, str) else p
+        return CStr(self.chars[len(p) :]) if self.startswith(p) else self
+
+    def removesuffix(self, p):
+        p = CStr.lit(p) if isinstance(p, str) else p
+        return CStr(self.chars[: len(self) - len(p)]) if len(p) and self.endswith(p) else self
+
+    def _all_in(self, pred):
+        # str.isdigit & co.: non-empty and every character satisfies the runtime's per-character predicate
+        if not self.chars:
+            return False
+        rs = pred_table(pred)
+        return all(char_in(c, rs) for c in self.chars)
+
+    def isdigit(self):
+        return self._all_in("isdigit")
+
+    def isdecimal(self):
+        return self._all_in("isdecimal")
+
+    def isnumeric(self):
+        return self._all_in("isnumeric")
+
+    def isspace(self):
+        return self._all_in("isspace")
+
+    def isalpha(self):
+        return self._all_in("isalpha")
+
+    def isalnum(self):
+        return self._all_in("isalnum")
+
+    def __getattr__(self, name):
+        if hasattr(str, name):
+            raise NotEncodable(f"str.{name} on a character-level symbolic string")
+        raise AttributeError(name)
+
     def concrete(self, model):
         return "".join(chr(c if isinstance(c, int) else symex.mval(model, c)) for c in self.chars)
+
+
+_PRED = {}
+
+
+def pred_table(name):
+    """code-point ranges on which the runtime's one-character str predicate (isdigit, ...) holds."""
+    if name not in _PRED:
+        f = getattr(str, name)
+        rs, start = [], None
+        for cp in range(0x110000):
+            ok = f(chr(cp))
+            if ok and start is None:
+                start = cp
+            elif not ok and start is not None:
+                rs.append((start, cp - 1))
+                start = None
+        if start is not None:
+            rs.append((start, 0x10FFFF))
+        _PRED[name] = rs
+    return _PRED[name]
 
 
 symex.STRLIKE.append(CStr)
